@@ -702,12 +702,12 @@ func checkExpiryPredicateAs(e *Env, rule string) {
 	if f := e.fn(rule, "pkg/cache.Cache.LoadOrStore"); f != nil {
 		done := false
 		for _, c := range core.CallsNamed(f, "pkg/sync.Map.ReplaceWithFunc") {
-			inner := core.FuncArgClosure(core.Arg(c, 2))
-			if inner == nil || len(inner.Params) < 2 {
+			inner, shift := core.MethodBehind(core.FuncArgClosure(core.Arg(c, 2))) // closure, or the method behind a method value
+			if inner == nil || len(inner.Params) < 2+shift {
 				continue
 			}
 			done = true
-			oldV, oldLoaded := inner.Params[0], inner.Params[1]
+			oldV, oldLoaded := inner.Params[shift], inner.Params[shift+1]
 			asksOther := false
 			bf := &core.BoolFn{Fn: inner, AtomOf: func(v ssa.Value) (string, bool, bool) {
 				if v == ssa.Value(oldLoaded) {
